@@ -85,6 +85,11 @@ CHECKS = {
         "units": [unit("c09-revocation", "revocation", ["zz_verif_c09_test.go"], "^TestVerifC09", shards={"quick": 16, "thorough": 16})],
         "assumptions": ["toy 64-bit modulus with real ECDSA accumulator signatures; the update arithmetic does not depend on the modulus size"],
     },
+    "C10": {
+        "level": "fault_enumeration",
+        "units": [unit("c10-revocation", "revocation", ["zz_verif_c10_test.go"], "^TestVerifC10", shards={"quick": 16, "thorough": 16})],
+        "assumptions": ["ECDSA P-256 and SHA-256 from the standard library are trusted by implementation and validator alike"],
+    },
     "_FIX": {
         "level": "other",
         "units": [unit("genfix", "root", [], "^TestVerifGenFixtures$", env={"VERIF_GENFIX": "1"}, timeout=1800)],
